@@ -254,6 +254,7 @@ class PowerGas(Gas):
 
     def write(self, output):
         gas_entry = super().write(output)
+        gas_entry.write_string('profile_type', self._profile_type)
         gas_entry.write_scalar('alpha', self.alpha)
         gas_entry.write_scalar('mix_ratio_surface', self.mixRatioSurface)
         gas_entry.write_scalar('beta',self.beta)
